@@ -25,6 +25,8 @@ def main():
         if not os.path.exists(os.path.join(d, "patch.diff")):
             continue
         meta = json.load(open(os.path.join(d, "meta.json")))
+        if meta.get("retired"):
+            print("%-28s retired: %s" % (name, meta["retired"][:120])); continue
         prop = meta["property"]
         props = [prop] + [p for p in meta.get("also_run", [])]
         tmp = tempfile.mkdtemp(prefix="vh-seed-")
